@@ -10,6 +10,7 @@ mod ana;
 mod lex;
 mod lit;
 mod parse;
+mod ids;
 mod render;
 mod total;
 
@@ -65,10 +66,34 @@ fn handle(line: &str) -> String {
             Some(b) => total::total(&b),
             None => "bad-arg".into(),
         },
+        ["ids", h] => match unhex_text(h) {
+            Some(t) => ids::ids(&t),
+            None => "bad-arg".into(),
+        },
         ["lit", h] => match unhex_text(h) {
             Some(t) => lit::lit(&t),
             None => "bad-arg".into(),
         },
+        ["projedit", rest @ ..] => {
+            let txt = |h: &str| -> Option<String> { if h == "-" { Some(String::new()) } else { unhex_text(h) } };
+            let mut initial = Vec::new();
+            let mut edits = Vec::new();
+            let mut after = false;
+            for h in rest {
+                if *h == "|" { after = true; continue; }
+                if h.is_empty() { continue; }
+                if !after {
+                    match txt(h) { Some(t) => initial.push(t), None => return "bad-arg".into() }
+                } else {
+                    let (i, hx) = match h.split_once(':') { Some(x) => x, None => return "bad-arg".into() };
+                    match (i.parse::<usize>(), txt(hx)) {
+                        (Ok(i), Some(t)) => edits.push((i, t)),
+                        _ => return "bad-arg".into(),
+                    }
+                }
+            }
+            ana::projedit_cmd(&initial, &edits)
+        }
         [cmd @ ("analyze" | "project"), rest @ ..] => {
             let mut texts = Vec::new();
             for h in rest {
